@@ -1164,7 +1164,8 @@ def _capacity_evidence(fb, fn, val_text, cap_text, via_reserve, map_f=None):
                 if not sense:
                     op = U.NEG[op]
                 for a, bb, o in ((l, r, op), (r, l, U.FLIP[op])):
-                    if U.ctext(fb, fn, a) == val_text and U.ctext(fb, fn, bb) == cap_text and o in ('<=', '<'):
+                    if U.ctext(fb, fn, a) == val_text and o in ('<=', '<') \
+                            and (U.ctext(fb, fn, bb) == cap_text or U.state_text(fb, fn, bb, c) == cap_text):
                         edges.add((b['id'], i))
     for n in fn.all_nodes():
         if n.get('k') != 'call' or not n.get('args'):
